@@ -17,7 +17,7 @@ def build_cli(release=False):
 class C01(PropBase):
     id = "C01"
     corr_fields = []
-    lean_modules = ["SqModel.Props.C01", "SqModel.Proofs.BridgeBits", "SqModel.Proofs.BridgeTable", "SqModel.Proofs.SafeCpr", "SqModel.Proofs.SafeReminder", "SqModel.Proofs.Safe"]
+    lean_modules = ["SqModel.Props.C01", "SqModel.Proofs.BridgeBits", "SqModel.Proofs.BridgeTable", "SqModel.Proofs.SafeCpr", "SqModel.Proofs.SafeReminder", "SqModel.Proofs.Safe", "SqModel.Proofs.TableInv"]
     extractors = ["trans_bits", "sites", "ma_code", "trans"]
     rule = ("the real reader thread (overflow checks on, catch_unwind) and the built CLI (debug profile; thorough: also release, "
             "panic=abort) on: every digit count 0..64, every DF against both lengths, exhaustive AC13/AC12/ID13/vertical-rate "
